@@ -36,7 +36,8 @@ ResultOk(e) ==
     /\ On("st") => StOf(e.st) = s.st
     /\ On("n") => /\ s.st = "C" => e.st # 0
                   /\ e.st = 1 => s.st = "C" /\ e.n = s.n
-    /\ On("err") => (s.st = "E" /\ e.st = 2 => e.err = ErrId(s.err))
+    /\ On("err") => /\ (s.st = "E" /\ e.st = 2 => e.err = ErrId(s.err))
+                    /\ (e.st = 2 => s.st = "E")     \* an error needs an offending byte
     /\ s.st = "C" /\ e.st = 1 =>
          /\ On("fields") /\ s.kind = "req" => SpanIs(e.m, s.method) /\ SpanIs(e.p, s.path) /\ e.v = s.version
          /\ On("fields") /\ s.kind = "resp" => e.v = s.version /\ e.c = s.code /\ SpanIs(e.r, s.reason)
